@@ -360,6 +360,7 @@ def main_cli(V, config, sysc, memm):
     vela.Imx93ArchitectureFeatures = rec("imx93")
     vela.architecture_features.ArchitectureFeatures = rec("generic")
     err = None
+    internal = None
     # the compiler is started from an arbitrary directory: not the one the module was imported from ("bundled" must not depend on it)
     cwd0 = os.getcwd()
     # a freshly made directory nested deeper than the directory the module was imported from: a path kept RELATIVE to the import-time directory
@@ -381,6 +382,10 @@ def main_cli(V, config, sysc, memm):
         err = e
     except SystemExit as e:
         err = e
+    except (core.PathAbort, core.Infeasible, core.Inconclusive, core.EngineError):
+        raise
+    except Exception as e:  # noqa: BLE001 - anything else that escapes main() is an internal exception: the user sees a traceback, not a diagnosis
+        internal = e
     finally:
         vela.os, vela.Imx93ArchitectureFeatures = saved[0], saved[1]
         vela.architecture_features.ArchitectureFeatures = saved[2]
@@ -395,6 +400,8 @@ def main_cli(V, config, sysc, memm):
     # OPTIONS.md: "Dir/file.ini" names a file in the bundled configuration directory; files elsewhere are given by (absolute) path
     bundled = config is not None and len(cfgn.split(os.path.sep)) == 2 and not cfgn.startswith((".", "~", os.path.sep))
     cl = []
+    if internal is not None:
+        return [("main() ends with a status or a diagnosis, not with an internal %s" % type(internal).__name__, False)]
     if config is not None and not bool(readable):
         return [("an unreadable / missing configuration file is rejected", err is not None and not ctor)]
     cl.append(("architecture object constructed without error", err is None and len(ctor) == 1))
